@@ -5,12 +5,15 @@ quick / thorough: a C03-style drawing program (text / erase / skip / char / line
 pens) on a small buffer, then an auxiliary-state prologue (save / savepen / setpen / mask / clip, rarely a
 translation), then one to three copy / move operations whose source rectangle lies inside the buffer and whose
 destination is chosen by overlap class (same line left / right, above / below, diagonal; overlapping by
-construction in most cases; rectangle edges fall anywhere relative to the runs), each followed by `restore` or a
+construction in most cases; rectangle edges fall anywhere relative to the runs) and whose destination
+*rectangle* has the source's size in half of the calls and a size of its own otherwise (1x1 "position", empty,
+smaller, larger, the whole buffer, rarely negative: only the position is meaningful), each followed by `restore` or a
 cursor-relative operation and the public queries, so that a disturbed stack, pen or cursor is visible twice (in
 the raw dump and in what later operations do).  A share of the histories blits a second buffer (own drawing
 program, own size) onto the first, under clip / mask / pen / translation.
 exhaustive: on a 3x6 buffer, a list of hand-made contents x every source rectangle x every destination position
-that keeps the rectangle inside the buffer, copy and move, followed by `restore` and `getcells`.
+that keeps the rectangle inside the buffer, copy and move, followed by `restore` and `getcells`; for the
+hand-made contents every move again with a 1x1 and with a whole-buffer destination rectangle.
 Prints one JSON line: the input distribution actually produced.
 """
 import argparse, random, json, itertools, collections
@@ -24,6 +27,7 @@ stats = collections.Counter()
 classes = collections.Counter()
 sizes = collections.Counter()
 aux = collections.Counter()
+dsizes = collections.Counter()
 
 
 def hexs(b):
@@ -200,7 +204,32 @@ class Hist:
         classes[cls] += 1
         classes["overlapping" if overlap else "disjoint"] += 1
         classes["dest-inside" if inside else "dest-partly-outside"] += 1
-        return dt, dl, t, l, n, c
+        return (dt, dl, t, l, n, c) + self.destsize(dt, dl, n, c)
+
+    def destsize(self, dt, dl, n, c):
+        """Size of the destination rectangle as passed: the library takes the size from the source, so any
+        size must behave like the source's.  () = the 6-argument form (destination of the source's size)."""
+        L, C = self.L, self.C
+        k = rng.random()
+        if k < 0.50:
+            dsizes["same"] += 1
+            return ()
+        if k < 0.68:
+            cls, d = "1x1", (1, 1)
+        elif k < 0.73:
+            cls, d = "empty", rng.choice([(0, 0), (0, c), (n, 0)])
+        elif k < 0.83:
+            cls, d = "smaller", (rng.randint(1, n), rng.randint(1, c))
+            if d == (n, c): d = (n, c - 1) if c > 1 else ((n - 1, c) if n > 1 else (0, 0))
+        elif k < 0.93:
+            cls, d = "larger", (n + rng.randint(0, 2), c + rng.randint(0, 3))
+            if d == (n, c): d = (n, c + 1)
+        elif k < 0.98:
+            cls, d = "to-buffer-edge", (max(0, L - max(dt, 0)), max(0, C - max(dl, 0)))
+        else:
+            cls, d = "negative", rng.choice([(-1, -1), (-1, c), (n, -2)])
+        dsizes[cls] += 1
+        return d
 
     def followup(self):
         r = rng.random()
@@ -246,7 +275,7 @@ def random_history():
     h.prologue()
     for _ in range(rng.choice([1, 1, 2, 3])):
         op = "copy" if rng.random() < 0.65 else "move"
-        h.emit("%s %d %d %d %d %d %d" % ((op,) + h.pair()))
+        h.emit(" ".join([op] + [str(x) for x in h.pair()]))
         h.followup()
     for _ in range(h.depth):
         h.emit("restore")
@@ -313,6 +342,17 @@ def exhaustive():
                             n += 1
                             cls = "identity" if (dt, dl) == (t, l) else ("same-line" if dt == t else "other-line")
                             classes[cls] += 1
+                            if op == "move" and ci < len(CONTENTS):
+                                # the destination rectangle's size is not meaningful: 1x1 and the whole buffer
+                                for dn, dc in ((1, 1), (L, C)):
+                                    if (dn, dc) == (nn, c):
+                                        continue
+                                    out.append(f"new {L} {C}")
+                                    out.extend(content)
+                                    out.append(f"move {dt} {dl} {t} {l} {nn} {c} {dn} {dc}")
+                                    out.append("getcells")
+                                    n += 1
+                                    dsizes[f"{dn}x{dc}"] += 1
     stats.clear()
     for op in out:
         stats[op.split()[0]] += 1
@@ -322,7 +362,7 @@ def exhaustive():
 lines = []
 if a.tier == "exhaustive":
     lines, n, nc = exhaustive()
-    info = {"histories": n, "exhaustive_bound": "3x6 buffer: %d contents (8 hand-made, the rest from a fixed stream) x {neutral state: copy and move; one auxiliary prologue: copy} x every source rectangle (126) x every destination position that keeps it inside the buffer (1274 pairs)" % nc}
+    info = {"histories": n, "exhaustive_bound": "3x6 buffer: %d contents (8 hand-made, the rest from a fixed stream) x {neutral state: copy and move; one auxiliary prologue: copy} x every source rectangle (126) x every destination position that keeps it inside the buffer (1274 pairs); hand-made contents: every move also with a 1x1 and a 3x6 destination rectangle" % nc}
 else:
     N = 2600 if a.tier == "quick" else 12000
     for _ in range(N):
@@ -330,5 +370,5 @@ else:
     info = {"histories": N}
 open(a.out, "w").write("\n".join(lines) + "\n")
 info.update({"ops": len(lines), "op_mix": dict(stats.most_common()), "pair_classes": dict(classes.most_common()),
-             "aux_state": dict(aux.most_common()), "buffer_sizes": dict(sizes.most_common(8))})
+             "aux_state": dict(aux.most_common()), "dest_rect_size": dict(dsizes.most_common()), "buffer_sizes": dict(sizes.most_common(8))})
 print(json.dumps(info))
